@@ -540,6 +540,8 @@ pub fn run_property(id: &str, tier: Tier) -> i32 {
         "C12" => return crate::numerics::run_c12(tier),
         "C13" => return crate::c13::run_c13(tier),
         "C10" => return crate::faults::run_c10(tier),
+        "C08" => return crate::c08::run_c08(tier),
+        "C09" => return crate::c09::run_c09(tier),
         _ => {}
     }
     eprintln!("unknown property {id}");
@@ -625,6 +627,8 @@ pub fn replay_file(path: &str) -> i32 {
         "C12-random" => Some(crate::numerics::replay_c12(&v["case"])),
         e if e.starts_with("C13-") => crate::c13::replay(e, &v["case"]),
         e if e.starts_with("C10-") => crate::faults::replay(e, &v["case"]),
+        e if e.starts_with("C08-") => crate::c08::replay(e, &v["case"]),
+        e if e.starts_with("C09-") => crate::c09::replay(e, &v["case"]),
         _ => None,
     };
     if let Some(r) = simple {
@@ -652,7 +656,10 @@ pub fn replay_file(path: &str) -> i32 {
     2
 }
 
-pub fn subcommand(name: &str, _args: &[String]) -> i32 {
+pub fn subcommand(name: &str, args: &[String]) -> i32 {
+    if name == "child-crash" {
+        return crate::c09::child_main(args);
+    }
     eprintln!("unknown sub-command {name}");
     2
 }
